@@ -26,7 +26,10 @@ level crate also need better documentation and will likely see a few minor API
 changes in the future.
 
 */
+#[cfg(nucleo_verif)]
+use crate::verif::atomic::{self, AtomicBool, Ordering};
 use std::ops::{Bound, RangeBounds};
+#[cfg(not(nucleo_verif))]
 use std::sync::atomic::{self, AtomicBool, Ordering};
 use std::sync::Arc;
 use std::time::Duration;
@@ -41,6 +44,8 @@ pub use nucleo_matcher::{chars, Config, Matcher, Utf32Str, Utf32String};
 mod boxcar;
 mod par_sort;
 pub mod pattern;
+#[cfg(nucleo_verif)]
+pub mod verif;
 mod worker;
 
 #[cfg(test)]
@@ -369,6 +374,8 @@ impl<T: Sync + Send + 'static> Nucleo<T> {
         if clear_snapshot {
             self.snapshot.clear(self.items.clone());
         }
+        #[cfg(nucleo_verif)]
+        crate::verif::hit("restart", 0, [clear_snapshot as u64, 0, 0, 0]);
     }
 
     /// Update the internal configuration.
@@ -382,16 +389,30 @@ impl<T: Sync + Send + 'static> Nucleo<T> {
     /// worker therad to finish. It is recommend to set the timeout to 10ms.
     pub fn tick(&mut self, timeout: u64) -> Status {
         self.should_notify.store(false, atomic::Ordering::Relaxed);
+        #[cfg(nucleo_verif)]
+        crate::verif::hit("tick.begin", 0, [timeout, 0, 0, 0]);
         let status = self.pattern.status();
         let canceled = status != pattern::Status::Unchanged || self.state.canceled();
         let mut res = self.tick_inner(timeout, canceled, status);
         if !canceled {
+            #[cfg(nucleo_verif)]
+            crate::verif::hit(
+                "tick.end",
+                0,
+                [res.changed as u64, res.running as u64, 1, 0],
+            );
             return res;
         }
         self.state = State::Fresh;
         let status2 = self.tick_inner(timeout, false, pattern::Status::Unchanged);
         res.changed |= status2.changed;
         res.running = status2.running;
+        #[cfg(nucleo_verif)]
+        crate::verif::hit(
+            "tick.end",
+            0,
+            [res.changed as u64, res.running as u64, 2, 0],
+        );
         res
     }
 
@@ -399,10 +420,18 @@ impl<T: Sync + Send + 'static> Nucleo<T> {
         let mut inner = if canceled {
             self.pattern.reset_status();
             self.canceled.store(true, atomic::Ordering::Relaxed);
+            #[cfg(nucleo_verif)]
+            let _verif_blocking = crate::verif::Blocking::new("tick.lock");
             self.worker.lock_arc()
         } else {
+            #[cfg(nucleo_verif)]
+            let _verif_blocking = crate::verif::Blocking::new("tick.try_lock");
             let Some(worker) = self.worker.try_lock_arc_for(Duration::from_millis(timeout)) else {
+                #[cfg(nucleo_verif)]
+                crate::verif::hit("tick.try_lock_failed", 0, [timeout, 0, 0, 0]);
                 self.should_notify.store(true, Ordering::Release);
+                #[cfg(nucleo_verif)]
+                crate::verif::hit("tick.armed", 0, [0, 0, 0, 0]);
                 return Status {
                     changed: false,
                     running: true,
@@ -414,9 +443,29 @@ impl<T: Sync + Send + 'static> Nucleo<T> {
         let changed = inner.running;
 
         let running = canceled || self.items.count() > inner.item_count();
+        #[cfg(nucleo_verif)]
+        crate::verif::hit(
+            "tick.locked",
+            0,
+            [
+                inner.running as u64
+                    | (inner.was_canceled as u64) << 1
+                    | (canceled as u64) << 2
+                    | (running as u64) << 3,
+                inner.item_count() as u64,
+                inner.last_snapshot as u64,
+                self.state as u64,
+            ],
+        );
         if inner.running {
             inner.running = false;
             if !inner.was_canceled && !self.state.canceled() {
+                #[cfg(nucleo_verif)]
+                crate::verif::hit(
+                    "tick.snapshot_update",
+                    0,
+                    [inner.item_count() as u64, inner.matches.len() as u64, 0, 0],
+                );
                 self.snapshot.update(&inner)
             }
         }
@@ -430,6 +479,12 @@ impl<T: Sync + Send + 'static> Nucleo<T> {
             if cleared {
                 inner.items = self.items.clone();
             }
+            #[cfg(nucleo_verif)]
+            crate::verif::hit(
+                "tick.spawn",
+                0,
+                [status as u64, cleared as u64, canceled as u64, 0],
+            );
             self.pool
                 .spawn(move || unsafe { inner.run(status, cleared) })
         }
@@ -442,6 +497,8 @@ impl<T: Sync + Send> Drop for Nucleo<T> {
         // we ensure the worker quits before dropping items to ensure that
         // the worker can always assume the items outlive it
         self.canceled.store(true, atomic::Ordering::Relaxed);
+        #[cfg(nucleo_verif)]
+        let _verif_blocking = crate::verif::Blocking::new("drop.lock");
         let lock = self.worker.try_lock_for(Duration::from_secs(1));
         if lock.is_none() {
             unreachable!("thread pool failed to shutdown properly")
